@@ -37,7 +37,7 @@ fn meta() -> Meta {
     Meta {
         id: "C13",
         level: "exploration",
-        rule: "routing: every brace list of <= 3 distinct names from {A, B, S, U, _Default} in every order (85 lists) plus plain targets {m, m::x, other} x 5 levels x module path {m, other, absent} x specification {off, error, info, trace, off,m=debug} x primary {recording writer, file}; duplication: 7 x 7 Duplicate settings for stderr x stdout x 5 levels at build time, and every ordered pair (old, new) through adapt_duplication_to_stderr / _stdout; distinct_nontrivial = distinct (specification, primary, target, level, module path) probes that address at least one additional writer, plus duplication probes with a non-None setting",
+        rule: "routing: every brace list of <= 3 (quick) / 4 (thorough) distinct names from {A, B, S, U, _Default} in every order (85 lists) plus plain targets {m, m::x, other} x 5 levels x module path {m, other, absent} x specification {off, error, info, trace, off,m=debug} x primary {recording writer, file}; duplication: 7 x 7 Duplicate settings for stderr x stdout x 5 levels at build time, and every ordered pair (old, new) through adapt_duplication_to_stderr / _stdout; distinct_nontrivial = distinct (specification, primary, target, level, module path) probes that address at least one additional writer, plus duplication probes with a non-None setting",
         assumptions: vec![
             "repeated names in one brace list are not enumerated (the statement does not define them)".into(),
             "stdout / stderr are observed by redirecting fd 1 / 2 of the worker process".into(),
@@ -64,8 +64,11 @@ fn specs() -> Vec<RefSpec> {
     ]
 }
 
+static THOROUGH: std::sync::atomic::AtomicBool = std::sync::atomic::AtomicBool::new(false);
+
 fn brace_lists() -> Vec<Vec<usize>> {
     let n = NAMES.len();
+    let four = THOROUGH.load(std::sync::atomic::Ordering::Relaxed);
     let mut v = Vec::new();
     for a in 0..n {
         v.push(vec![a]);
@@ -79,6 +82,13 @@ fn brace_lists() -> Vec<Vec<usize>> {
                     continue;
                 }
                 v.push(vec![a, b, c]);
+                if four {
+                    for d in 0..n {
+                        if d != a && d != b && d != c {
+                            v.push(vec![a, b, c, d]);
+                        }
+                    }
+                }
             }
         }
     }
@@ -221,7 +231,7 @@ fn routing(spec_idx: usize, file_primary: bool) -> Result<(u64, u64), Fail> {
                 }
                 let shape = match list {
                     None => "plain".to_string(),
-                    Some(l) => format!("list{}{}", l.len(), if named("U") { "+unknown" } else { "" }),
+                    Some(l) => format!("list{}{}", l.len().min(3), if named("U") { "+unknown" } else { "" }),
                 };
                 let ctx = format!("spec `{}` primary={kind} target={target:?} level={level} module_path={mp:?}", spec.text());
                 for (who, got, want, ceiling) in [("custom", got_a, want_a, LevelFilter::Trace), ("file", got_b, want_b, LevelFilter::Warn), ("syslog", got_s, want_s, LevelFilter::Warn)] {
@@ -379,7 +389,8 @@ fn duplication_adapt(stderr: bool) -> Result<u64, Fail> {
     Ok(n)
 }
 
-fn run_unit(_tier: &str, unit: usize, out: &mut Out) {
+fn run_unit(tier: &str, unit: usize, out: &mut Out) {
+    THOROUGH.store(tier != "quick", std::sync::atomic::Ordering::Relaxed);
     let ns = specs().len() * 2;
     let r: Ran<Result<(u64, u64), Fail>> = if unit < ns {
         run_isolated(Duration::from_secs(120), move || routing(unit / 2, unit % 2 == 1))
